@@ -135,14 +135,19 @@ class DtdGen:
         k = rng.randrange(1, min(4, len(pool)) + 1)
         have_sub = False
         for nm in pool[:k]:
-            if depth < 2 and rng.random() < 0.15 and len(pool) > k and not have_sub:
+            if depth < 2 and rng.random() < 0.3 and len(pool) > k and not have_sub:
                 have_sub = True
                 sub = self.model(d, pool[k:], depth + 1)
                 if kind == "choice" and sub.kind == "seq" and len(sub.items) > 1 and not self.allow_known_findings:
                     # a sequence as one alternative of a choice: with compound fields all its members land in one
                     # single-valued field (open known finding C16/sequence-inside-choice-collapses, probe in vf/props/c16.py)
                     sub.kind = "choice"
-                sub.occur = rng.choice(["", "?", "*", "+"])
+                sub.occur = rng.choice(["", "?", "?", "*", "+"])
+                if sub.occur == "?" and sub.kind == "seq" and rng.random() < 0.6:
+                    for x in sub.items:  # an optional group of required members: all of them or none
+                        if x.kind == "elem":
+                            x.occur = ""
+                    d.features.add("optional-group-of-required-members")
                 if sub.occur in ("*", "+") and not (sub.kind == "choice" and all(x.kind == "elem" and x.occur == "" for x in sub.items)):
                     d.order_preserving = False
                 d.features.add(f"nested-{sub.kind}{sub.occur}")
@@ -193,6 +198,19 @@ class DtdGen:
                 d.features.add("att-default")
             d.features.add(f"att-{t}")
             out.append(a)
+        if rng.random() < 0.1 and "lang" not in used and "xml:lang" not in used:
+            # a prefixed and an unprefixed enumeration attribute with the same local name and different value sets
+            for nm, vals in (("xml:lang", rng.sample(["en", "de", "fr", "el"], rng.choice([2, 3]))), ("lang", rng.sample(["short", "long", "iso", "none"], rng.choice([2, 3])))):
+                a = AttDef(nm, "enum")
+                a.values = vals
+                a.decl = rng.choice(["#REQUIRED", "#IMPLIED", "default"])
+                if a.decl == "default":
+                    a.value = rng.choice(vals)
+                used.add(nm)
+                out.append(a)
+            if rng.random() < 0.5:
+                out[-2:] = [out[-1], out[-2]]
+            d.features.add("att-enum-same-local-name-prefixed-and-not")
         if self.attr_namespaces and rng.random() < 0.2:
             # namespaced attributes: the prefixes are declared by #FIXED xmlns:* attributes of the same element
             # (several adjacent declarations); the element itself stays without namespace
